@@ -24,6 +24,7 @@ EXPLANATION = (
     "documented helpers (signature defaults; explicit map_over clone), copy.copy only on a derivation's receiver, and bind() stores the caller's objects "
     "themselves; (R6) a mapping graph node leaves the inner graph's own bound values out of the inputs of the nested map, so per-item cloning can "
     "never touch them. R6 is decided as a truth table of the executor's comprehension filter over 'key is bound in the inner graph' x 'value is that bound object': exactly the (bound, same object) case may be dropped. R1 also requires that the DEFAULT (copied) class holds signature defaults only and that values bound on a nested graph have a BOUND path of their own; (R7) a DEFAULT-class value is never collected as a broadcast input of a mapping graph node; (R8) effects analysis: the run/map paths and the executors neither write nor mutate attributes of the runner/executor objects (no state survives a run on the runner; the user's cache backend excepted)."
+    " R8 also covers the graph: the run/map/execute paths have no write or mutation effect on the graph parameter — followed through call results that alias it ('spec = resolve(graph)' returning graph.inputs) — except the lazy memoisation inside the graph's own properties."
 )
 NOT_DECIDED = "Equality of results across repeated/concurrent runs as such; behaviour of user objects that refuse deepcopy (reported as GraphConfigError by design)."
 
@@ -158,6 +159,15 @@ def run(ctx) -> None:
     for f8 in fs8:
         ws = [e for e in E8.writes(f8, "self", include_unknown=False) if e.path[:1] not in (("_cache",), ("cache",))]
         rep.add("C18.R8", f"{f8.qname}:runner-state", not ws, f8.loc(), "no write to / in-place mutation of the runner or executor object" if not ws else f"the run path changes the runner object: {fmt_effect(ws[0])} — state kept on the runner survives the run and leaks into later runs (e.g. a memo keyed by something that does not cover the whole graph configuration)")
+
+    # ... and leaves the graph unchanged: nothing a run is given (provided values, results) is written into the
+    # graph object or the structures it caches (its input spec, its bound tables); the only writes are the lazy
+    # memoisation of derived views inside the graph's own properties
+    for f8 in template_methods(db, "run") + template_methods(db, "map") + execute_impl_funcs(db):
+        if "graph" not in f8.param_names:
+            raise AnalysisError(f"{f8.qname}: no 'graph' parameter")
+        ws = [e for e in E8.writes(f8, "graph", include_unknown=False) if not (e.kind == "write" and len(e.path) == 1 and "via property hypergraph.graph.core.Graph." in e.detail)]
+        rep.add("C18.R8", f"{f8.qname}:graph-state", not ws, f8.loc(), "the run path writes nothing into the graph (lazy property memos excepted)" if not ws else f"the run path changes the graph object: {fmt_effect(ws[0])} — what one run was given survives in the shared graph and reaches later (or concurrent) runs as if it had been bound")
 
     # ---- R2 ---------------------------------------------------------------------
     ni = db.func("runners._shared.input_normalization.normalize_inputs")
@@ -430,4 +440,6 @@ VARIANTS = [
     Variant("bind-deepcopies", "src/hypergraph/graph/core.py", lambda s_: s_.replace("        new_graph._bound = {**self._bound, **values}", "        import copy as _copy\n\n        new_graph._bound = {**self._bound, **{k: _copy.deepcopy(v) for k, v in values.items()}}"), {"C18.R5"}),
     Variant("map-passes-inner-bound-to-clone-path", "src/hypergraph/runners/sync/executors/graph_node.py", replace_once("                node.graph,\n                map_inputs,", "                node.graph,\n                inner_inputs,"), {"C18.R6"}),
     Variant("twin-resolver-inverted-test", HP, replace_once("    if source == ValueSource.DEFAULT:\n        return _safe_deepcopy(value, param_name=param)\n\n    # All other sources: return as-is (no copying)\n    return value", "    if source != ValueSource.DEFAULT:\n        return value\n    return _safe_deepcopy(value, param_name=param)"), set()),
+    Variant("provided-values-merged-into-spec", "src/hypergraph/runners/_shared/validation.py", replace_once("    merged = {**inputs_spec.bound, **values}", "    merged = inputs_spec.bound\n    merged.update(values)"), {"C18.R8"}),
+    Variant("twin-merged-from-dict-copy", "src/hypergraph/runners/_shared/validation.py", replace_once("    merged = {**inputs_spec.bound, **values}", "    merged = dict(inputs_spec.bound)\n    merged.update(values)"), set()),
 ]
